@@ -75,6 +75,10 @@ func cmpDomains(info *types.Info, x ast.Expr, ops map[token.Token]bool) []string
 var eqOps = map[token.Token]bool{token.EQL: true, token.NEQ: true}
 
 func propC15(c *Ctx) {
+	defer func() {
+		rpa := c.Rule("precedence-agree", "the binary operators uGO shares with Go have Go's precedence in token.Precedence (expressions group as in Go)", 15)
+		rulePrecedenceAgree(c, rpa)
+	}()
 	tb := newTabber(c.L)
 	otypes := objectTypes(c.L, modPath)
 	c.extra["object_types"] = len(otypes)
